@@ -10,7 +10,7 @@ CLAIMED = {
  "C05": ("seeded fault-injecting simulation of input histories: stale-error monitor, restart-as-oracle at reset events, absent-deletion and read-independence twins, bounded recovery", "5 C05"),
  "C10": ("seeded fault-injecting simulation of sample histories vs trapezoid/difference reference models with forward error bound, time-shift twin, mis-dimensioned sample faults", "5 C10"),
  "C11": ("seeded simulation of sample/command/follow histories vs staged CommandPID reference model; set-same twin", "5 C11"),
- "C12": ("seeded simulation of irregular/duplicate-timestamp histories: formula model, convexity invariant, f32/Quantity variant twin, no-panic", "5 C12"),
+ "C12": ("seeded simulation of irregular/duplicate-timestamp histories: formula model, convexity invariant, f32/Quantity variant twin, no-panic; one defect (window starting before i64::MIN) recorded as KNOWN-FINDING", "5 C12"),
  "C08": ("seeded simulation of device graphs (set/update schedules, presence patterns, relinking) with a per-update least-squares projection oracle from the values read at the terminals", "5 C08"),
  "C09": ("seeded connect/re-pair/disconnect (partition/heal) sequences on free terminals against a symmetric-matching reference model; panics are crashes", "5 C09"),
  "C13": ("seeded simulation of device chains under arbitrary update schedules and skewed issuer clocks: newest-command-wins per update + bounded-progress check over the recorded schedule", "5 C13"),
